@@ -15,7 +15,7 @@ theorem names_ok : N.ok = true := by decide +kernel
 
 /-- `emit_build_fixed` on the EXPRESSION layer: every expression model that is well-formed within nesting depth `f`
 (literals, variables, parameters, property lookups, label tests, count(*), function calls, lists, parentheses, unary sign,
-`^`, `* / %`, `+ -`, one string/list/null predicate per operand, comparison chains, NOT, AND, XOR, OR) is rebuilt exactly by the
+map literals with bare, strictly increasing keys, `^`, `* / %`, `+ -`, one string/list/null predicate per operand, comparison chains, NOT, AND, XOR, OR) is rebuilt exactly by the
 visitor model from its canonical tree, for any fuel ≥ 2·size + 2 -/
 theorem emit_build_fixed_expr (f : Nat) (e : Expr) (hw : wfExpr f e = true) (g : Nat)
     (hg : 2 * size (treeOfExpr N f e) + 2 ≤ g) : bExpr N g (treeOfExpr N f e) = .ok e :=
@@ -37,5 +37,8 @@ theorem faithful_partial_expr (t : Tree) (f : Nat) (e : Expr) (ht : t = treeOfEx
 example : wfExpr 3 (.conj [.cmp (.prop (.var "n") "a") [("=", .lit (.int 1))],
     .neg (.paren (.disj [.cmp (.prop (.var "m") "b") [("in", .list [.lit (.int 1), .lit (.int 2)])],
                          .cmp (.fn false [] "count" [.star]) [(">", .lit (.int 0))]]))]) = true := by decide +kernel
+
+/-- non-vacuity for map literals: `{a: 1, b: [x]} = $p` -/
+example : wfExpr 3 (.cmp (.map [("a", .lit (.int 1)), ("b", .list [.var "x"])]) [("=", .param "p")]) = true := by decide +kernel
 
 end Dawgs.C07.Props
